@@ -25,7 +25,7 @@ MECH = ["nutree.fs:load_tree_from_fs", "nutree.fs:FileSystemEntry.__init__", "nu
         "nutree.fs:FileSystemTree.deserialize_mapper"]
 MIN_NONTRIVIAL = {"quick": 60, "thorough": 1500}
 NAMES = ["a", "B", "a.b", "a-b", "a b", "ä", "Z", "z", "10", "9", "_x", "日本", "a.txt", "A.txt", "b", "c.d.e", "é", "~t",
-         "e\u0301", "A\u030a.txt", ".hidden", ".config", "..twodots", ".a.b"]  # decomposed forms: other names than their composed twins ("é")
+         "e\u0301", "A\u030a.txt", ".hidden", ".config", "..twodots", ".a.b", "win\\style.txt", "c:drive", "x\\"]  # decomposed forms: other names than their composed twins ("é")
 
 
 def make_dir(rng, root):
@@ -50,6 +50,16 @@ def make_dir(rng, root):
                 os.utime(p, (mt, mt))
 
     fill(root, 0)
+    if rng.random() < 0.4:
+        # a second name for an existing file (hard link): still one node per directory entry
+        files = [os.path.join(dp, f) for dp, dn, fn in os.walk(root) for f in fn]
+        dirs = [dp for dp, dn, fn in os.walk(root)]
+        if files:
+            try:
+                os.link(rng.choice(files), os.path.join(rng.choice(dirs), "hardlink-" + str(rng.randrange(1000))))
+                count[0] += 1
+            except OSError:
+                pass
     if rng.random() < 0.3:
         try:
             with open(os.path.join(os.fsencode(root), b"caf\xe9-latin1.txt"), "wb") as fp:
@@ -119,6 +129,9 @@ def normalize(lst):
     return sorted(((n, d, s, m, normalize(k)) for n, d, s, m, k in lst), key=lambda x: (x[0], x[1]))
 
 
+_LONG_LIVED_FILE_META = {}
+
+
 def run_case(case, res):
     from nutree.fs import FileSystemTree, load_tree_from_fs
 
@@ -165,7 +178,16 @@ def run_case(case, res):
             # round trip through save/load with the class mappers
             pth = os.path.join(tmp, "tree.json")
             t.save(pth, mapper=FileSystemTree.serialize_mapper)
-            t2 = FileSystemTree.load(pth, mapper=FileSystemTree.deserialize_mapper)
+            fm = _LONG_LIVED_FILE_META if case["seed"] % 2 else {}
+            if case["seed"] % 2:
+                # the caller's dict was used for another kind of file before (it still holds that file's header)
+                from nutree import Tree as _PT
+
+                other = _PT("other")
+                other.add("x").add("y")
+                other.save(os.path.join(tmp, "other.json"))
+                _PT.load(os.path.join(tmp, "other.json"), file_meta=fm)
+            t2 = FileSystemTree.load(pth, mapper=FileSystemTree.deserialize_mapper, file_meta=fm)
             res.count("round_trips")
             if type(t2) is not FileSystemTree:
                 bad.append(f"load returned {type(t2).__name__}")
